@@ -162,9 +162,13 @@ def run_property(a):
     cc_proc = None
     if not a.no_crosscheck and os.path.isfile(VENV_PY):
         cc_proc = start_crosscheck(prop, seed, 3 if tier == "quick" else 12)
+    def cases_of(t):
+        con_ = REGISTRY.get(t)
+        return getattr(con_, "thorough_cases", con_.cases) if tier == "thorough" else con_.cases
+
     tasks = []
     for t in targets:
-        for case in REGISTRY.get(t).cases:
+        for case in cases_of(t):
             tasks.append((t, None, False, (), timeout_ms, (case,)))
     reports = merge_reports(pool_map(tasks, a.jobs))
     by = {r.target: r for r in reports}
@@ -217,7 +221,7 @@ def run_property(a):
                                        and (prop in REGISTRY.get(t).props) and (t in htargets or depends_on(reports, t, htargets))))
             inline_sets = {t: tuple(sorted(set(helpers_all) | htargets)) for t in dependents}
             reps2 = merge_reports(pool_map([(t, None, False, inline_sets[t], timeout_ms, (case,))
-                                            for t in dependents for case in REGISTRY.get(t).cases], a.jobs))
+                                            for t in dependents for case in cases_of(t)], a.jobs))
             for r2 in reps2:
                 bad = [o for o in r2.obligations if o.status != "proved" and (o.level == "property")]
                 hbad = [o for o in r2.obligations if o.status != "proved" and o.level != "property"]
